@@ -11,8 +11,9 @@ PROPS_FILE = "Props/C04.v"
 ANCHORS = [("lib/debian/changelog.py",
             ["parse_changelog", "_format", "_parse_error", "topline", "blankline", "changere", "endline",
              "endline_nodetails", "keyvalue", "value_re"])]
-BUDGET = {"quick": 1500, "thorough": 24000}
-SHARD = 120
+BUDGET = {"quick": 1500, "thorough": 20000}
+SHARD = 250
+SHARD_IMPORTS = cl.SHARD_IMPORTS
 RULE = ("documents drawn from the deb-changelog(5) grammar by harness/props/clcommon.py gen_doc: 1-5 blocks, "
         "optional leading blank lines, package/version/distribution lists over their full character classes "
         "(dots, '+', '~', epochs, upper case), urgency with and without comment, 0-3 extra key=value pairs, "
@@ -41,8 +42,14 @@ ASSUMPTIONS = ["UTF-8 decoding of bytes input is the inverse of encoding (bytes 
 
 
 def _wf_case(rng, doc, src):
+    gen = True
+    if rng.random() < 0.06:
+        # a version outside the Policy grammar: outside C04 (holds is vacuous), the model must still agree
+        rng.choice(doc["blocks"])["version"] = cl.gen_odd_version(rng)
+        gen, src = False, "oddversion"
     text = cl.render_doc(doc)
-    return {"kind": "wf", "text": text, "inp": cl.input_forms(rng, text), "gen": cl.expected_attrs(doc), "src": src}
+    return {"kind": "wf", "text": text, "inp": cl.input_forms(rng, text),
+            "gen": cl.expected_attrs(doc) if gen else None, "src": src}
 
 
 def generate(rng, n, tier):
@@ -65,6 +72,8 @@ def generate(rng, n, tier):
         yield _wf_case(rng, doc, "grammar")
     for c in cl.gen_leaf_cases(rng, n_leaf):
         yield c
+    for c in cl.gen_lit_cases(rng, 30):
+        yield c
     if tier == "thorough":
         for c in cl.gen_leaf_exhaustive(5):
             yield c
@@ -75,6 +84,8 @@ def from_json(j):
 
 
 def run_impl(case):
+    if case["kind"] == "lit":
+        return {}
     if case["kind"] == "leaf":
         return {"groups": cl.leaf_groups(case["leaf"], case["s"])}
     r, _ = cl.construct(case["inp"], strict=True)
@@ -84,12 +95,20 @@ def run_impl(case):
 def emit(case, obs):
     if case["kind"] == "leaf":
         return cl.emit_leaf(case, obs)
+    if case["kind"] == "lit":
+        return cl.emit_lit(case, obs)
     tbl = cl.junk_table(cl.case_lines(case["inp"], obs))
-    gen = cq_opt(case["gen"], lambda g: cq_list([cl.cq_lxblock(x) for x in g]))
-    return "CWf %s %s %s %s %s" % (cq_str(case["text"]), cl.cq_input(case["inp"]), gen, cl.cq_tbl(tbl), cl.cq_res(obs))
+
+    def build(L):
+        gen = cq_opt(case["gen"], lambda g: cq_list([cl.cq_lxblock(x, L) for x in g]))
+        return "CWf %s %s %s %s %s" % (L(case["text"]), cl.cq_input(case["inp"], L), gen, cl.cq_tbl(tbl, L),
+                                       cl.cq_res(obs, L))
+    return cl.with_lits(build)
 
 
 def classify(case, obs):
+    if case["kind"] == "lit":
+        return "literal-decoder"
     if case["kind"] == "leaf":
         return "leaf/%s/%s" % (cl.LEAF_NAMES[case["leaf"]], "match" if obs["groups"] is not None else "nomatch")
     src = case["src"].split(":")[0]
@@ -108,6 +127,8 @@ def classify(case, obs):
 
 
 def nontrivial(case, obs):
+    if case["kind"] == "lit":
+        return False
     if case["kind"] == "leaf":
         return obs["groups"] is not None
     if case["gen"] is None:
@@ -129,7 +150,7 @@ def _with_doc_text(case, text):
 
 
 def shrink(case):
-    if case["kind"] == "leaf":
+    if case["kind"] in ("leaf", "lit"):
         s = case["s"]
         for i in range(len(s)):
             yield dict(case, s=s[:i] + s[i + 1:])
@@ -152,6 +173,8 @@ def shrink(case):
 
 
 def describe(case, obs):
+    if case["kind"] == "lit":
+        return {"literal": case["s"], "what": "coq/Changelog/Lit.v declit against coq/Lib/Dec.v dec"}
     if case["kind"] == "leaf":
         return {"leaf": cl.LEAF_NAMES[case["leaf"]], "subject": case["s"], "groups": obs["groups"]}
     return {"call": "Changelog(<%s>, strict=True); str(); block attributes" % case["inp"]["form"],
